@@ -13,7 +13,7 @@ import threading
 from hypothesis import strategies as st
 
 from vf import lab, probe
-from vf.core import Prop, Outcome, HarnessError
+from vf.core import Prop, Outcome, HarnessError, fd
 
 from deep.api.tracepoint.trigger import Trigger, LineLocation, FunctionLocation, LocationAction, Location, \
     build_trigger
@@ -25,7 +25,8 @@ BASE = 'c15_prog.py'
 
 def render(recipe):
     """-> source, info per function: {'def': line, 'work': line}"""
-    lines = ['COUNTER = [0]', 'def nxt():', '    COUNTER[0] += 1', '    return COUNTER[0]']
+    lines = ['COUNTER = [0]', 'def nxt():', '    COUNTER[0] += 1', '    return COUNTER[0]', 'def step(x):',
+             '    return x - 1']
     info = []
     for i, f in enumerate(recipe['funcs']):
         name = 'f%d' % i
@@ -46,6 +47,12 @@ def render(recipe):
         d['def'] = len(lines)
         lines.append('    tag = "%s-%%d-%%d" %% (n, nxt())' % name)
         d['work'] = len(lines)
+        if f['kind'] == 'loop1':
+            lines.append('    m = n + 2')
+            lines.append('    while m > 0: m = step(m)')        # a loop whose body is on the same line
+            d['work'] = len(lines)
+        if f.get('reconf'):
+            lines.append('    RECONF()')                        # the service removes every tracepoint right now
         lines.append('    acc = [tag]')
         ind = '    '
         if f['finally']:
@@ -102,20 +109,22 @@ class C15(Prop):
                    'a captured exception may be represented as the instance or as the (type, value, traceback) triple']
     quick_examples = 2500
     thorough_examples = 8000
-    floors = {'overlapping_openings': 0.2, 'exception_through_opening': 0.15, 'several_threads': 0.2, 'capture': 0.3}
+    floors = {'overlapping_openings': 0.2, 'exception_through_opening': 0.15, 'several_threads': 0.2, 'capture': 0.3,
+              'config_emptied_mid_invocation': 0.05}
 
     def strategy(self, tier):
-        func = st.fixed_dictionaries({
-            'kind': st.sampled_from(['plain', 'rec', 'rec', 'gen']),
+        func = fd({
+            'kind': st.sampled_from(['plain', 'rec', 'rec', 'gen', 'loop1']),
+            'reconf': st.sampled_from([False, False, False, True]),
             'raises': st.sampled_from(['never', 'never', 'leaf', 'always']),
             'catches': st.booleans(), 'finally': st.booleans(),
             'calls': st.lists(st.integers(1, 3), max_size=2, unique=True),
         })
-        tp = st.fixed_dictionaries({'func': st.integers(0, 3),
+        tp = fd({'func': st.integers(0, 3),
                                     'kind': st.sampled_from(['method_span', 'line_span', 'method_capture', 'line_capture',
                                                              'method_capture']),
                                     'fire_count': st.sampled_from(['1', '-1', '-1'])})
-        return st.fixed_dictionaries({
+        return fd({
             'funcs': st.lists(func, min_size=1, max_size=4),
             'tps': st.lists(tp, min_size=1, max_size=4),
             'threads': st.lists(st.tuples(st.integers(0, 3), st.integers(0, 3)).map(list), min_size=1, max_size=3),
@@ -204,7 +213,15 @@ class C15(Prop):
             except BaseException as e:      # noqa
                 results.append(('exc', type(e).__name__))
 
-        ns = {'__name__': 'c15_prog'}
+        reconf_at = []
+
+        def RECONF():
+            if not reconf_at:
+                reconf_at.append(len(ip.events))
+                handler.new_config([])
+                out.cls('config_emptied_mid_invocation')
+
+        ns = {'__name__': 'c15_prog', 'RECONF': RECONF}
         exec(code, ns)
         old = threading.gettrace()
         threading.settrace(ip.trace)
@@ -340,7 +357,7 @@ class C15(Prop):
                 continue
             want_event = 'call' if kind == 'method_capture' else 'line'
             hits = [e for e in ip.events if e.base == BASE and e.event == want_event and e.func == fi['name'] and
-                    (kind == 'method_capture' or e.line == fi['work'])]
+                    (kind == 'method_capture' or e.line == fi['work']) and (not reconf_at or e.idx < reconf_at[0])]
             tp = [t for t in recipe['tps'] if True]
             fc = int(recipe['tps'][int(tid[2:])]['fire_count'])
             exp = len(hits) if fc == -1 else min(len(hits), fc)
